@@ -3,7 +3,8 @@
    on other connections, closes by either side or both, any number of connections). *)
 From Coq Require Import NArith ZArith List Bool.
 From Cloak Require Import Model.Reorder Model.Mux Proofs.MuxBase Proofs.MuxSafety Proofs.MuxView
-  Proofs.MuxEffect Proofs.MuxPay Proofs.MuxData Proofs.MuxLocal Proofs.MuxClose.
+  Proofs.MuxEffect Proofs.MuxPay Proofs.MuxData Proofs.MuxLocal Proofs.MuxClose Proofs.MuxCalm Proofs.MuxUp
+  Proofs.MuxExact.
 Import ListNotations.
 Local Open Scope N_scope.
 
@@ -49,3 +50,24 @@ Print Assumptions C03_closed_stream_serves_buffered_then_error.
 
 (* the exactness half (the reader gets ALL of B before the error when it never closed the stream
    itself and nothing failed) is decided by the correspondence + oracle (tools/props/c03.py) *)
+
+(* Never an early end, never a lost tail: on a healthy session (k >= 1 connections, multiplexed; any
+   opens, writes, reads, accepts, closes of streams, deliveries in ANY cross-connection order -
+   closing notice overtaking or trailing the data - timer ticks while streams are open), if the
+   reader's end of the stream is closed (its reads return what is left in the pipe, then the
+   broken-stream error: C03_closed_stream_serves_buffered_then_error) and the reader did not close the
+   stream itself, then the writer did close it, and the bytes the reader has read followed by the
+   bytes still in its pipe are EXACTLY the bytes the writer's writes accepted. *)
+Theorem C03_close_is_exact :
+  forall s sid k unit toA toB ls rb,
+  (1 <= k)%nat -> 1 <= unit ->
+  fresh_run (init k false unit toA toB) ls -> busy_run k (init k false unit toA toB) ls ->
+  no_local_close s sid ls ->
+  let os := outputs k false unit toA toB ls in
+  let y := reach k false unit toA toB ls in
+  nE (run_frames s sid os) + 2 < two64 ->
+  rview s sid y = Some (rb, true) ->
+  cl_of (run_frames s sid os) <> two64 /\
+  run_written s sid ls os = run_reads s sid ls os ++ pipe rb.
+Proof. exact close_is_exact. Qed.
+Print Assumptions C03_close_is_exact.
